@@ -37,6 +37,9 @@ func runConcurrent(fams string, n int, seed int64, g int) {
 		if f[0] == "det" || len(f) < 2 {
 			continue
 		}
+		for i := range f {
+			f[i] = unesc(f[i])
+		}
 		cases = append(cases, cs{f[0], f[1 : len(f)-1], f[len(f)-1]})
 	}
 	shareSlices = true // argument slices and points are shared between the goroutines (caches guarded by mutexes)
